@@ -39,8 +39,10 @@ Definition check (c : c03case) : N :=
       let fuel := walk_fuel H root in
       let m := model mode fuel hin n_in root in
       (* the shipped input must satisfy the decidable hypotheses of the theorems
-         (finite, closed, kind-correct); otherwise the harness is broken *)
-      if negb (wf_heapb hin n_in && wf_kindsb hin && root_kindsb hin root && refs_belowb n_in (refs root)) then 1 else
+         (finite, closed, ranked - no cycle of slices only -, depth-bounded, kind-correct:
+         c03_guard_total with a ranking computed by Canon.compute_rk); otherwise the harness is broken *)
+      let rk := compute_rk hin in
+      if negb (c03_guard_total hin n_in (rank_bound rk) (Nat.max (heap_depth hin) (depth root)) rk root) then 1 else
       match impl with
       | None =>
           (* did not terminate *)
